@@ -297,4 +297,10 @@ theorem valid_of_all' (stat : B → Except Err (List α)) (bs : List B)
     (h : bs.all (fun b => (stat b).toOption.isSome) = true) : Valid stat bs :=
   valid_of_all stat bs h
 
+/-- `Except Err _` has no decidable equality: decide the `toOption` form instead. -/
+theorem eq_ok_of_toOption {x : Except Err α} {a : α} (h : x.toOption = some a) : x = .ok a := by
+  cases x with
+  | ok b => simp [Except.toOption] at h; rw [h]
+  | error e => simp [Except.toOption] at h
+
 end TE.FamCache
